@@ -20,9 +20,7 @@ RULE = ("part=method: case = (functional in 10 functionals, method in {every reg
         "of solve_ivp/quad are paired with every built-in as explicit backward method. part=names: every registered "
         "name x {lower, UPPER, Title, sWAPPED}; part=unknown: '', 'nope', name+'x', name[:-1], 3. A case is distinct "
         "by its observation (spy log, forward distances, gradient differences); no case is trivial")
-RULE_ADDED = ('Added later: list-state solve_ivp, option value None, call-order plane in fresh interpreters (callab'
-              'le and built-in methods of quad / solve_ivp / rootfinder in sequence). Round 4: solve scenarios tiny'
-              'B (right-hand side 1e-9) and EM (E and M, ncols = nrows).')
+RULE_ADDED = 'Added later: list-state solve_ivp, option value None, call-order plane in fresh interpreters (callable and built-in methods of quad / solve_ivp / rootfinder in sequence). Round 4: solve scenarios tinyB (right-hand side 1e-9) and EM (E and M, ncols = nrows). Round 6: unknown names with an exactly zero right-hand side (solve).'
 ASSUMPTIONS = [
     "one small well-conditioned instance per functional (n<=4, float64), value plane 0 fixed, thorough adds one plane from VERIF_SEED",
     "two ways of producing the forward solution are compared only when K*(distance of forward values + requested "
